@@ -8,12 +8,17 @@ Proved here:
 * the CoAP option walk against RFC 7252 §3.1 written as an encoder (`Schc.Spec.wireOption`): for ANY list of
   options (every delta / length class, empty values, any count) the parser returns exactly the RFC's field list in
   wire order, with occurrence positions, and the right header length (`C08_coap_message`, `C08_coap_positions`).
-SCTP chunk walks and next-protocol chaining beyond the tables are tied to RFC 9260 encoders by the `parse`
-correspondence stream (structured generators for every chunk type) — theorems about them are C07 (tiling) and C14
-(totality).
+* the SCTP walks against RFC 9260 §3 written as an encoder (`Schc.Spec.SctpChunk.wire`, `ChunkValue`, `SctpParam`):
+  for ANY list of chunks — DATA, INIT, INIT ACK (with any parameter list), SACK (any numbers of gap-ack blocks and
+  duplicate TSNs), HEARTBEAT / HEARTBEAT ACK / ABORT / ERROR (parameter lists), SHUTDOWN, the value-less types,
+  COOKIE ECHO, and every other type with an opaque value — the parser returns exactly the RFC's field list in wire
+  order including chunk and parameter padding (`C08_sctp_packet`, `C08_sctp_chunk`, `C08_sctp_parameters`).
+Agreement of the next-protocol-predicting parsers with the explicit stacks is by the chaining tables
+(`C08_chaining`) and the `parse` correspondence stream.
 -/
 import Schc.Proofs.Fixed
 import Schc.Proofs.CoapWalk
+import Schc.Proofs.SctpWalk
 
 namespace Schc
 
@@ -98,5 +103,47 @@ example :
     (∀ o ∈ os, Spec.WfOption o) ∧
     Spec.wireOptions os = Bits.ofNat 16 0xb261 ++ Bits.ofNat 8 0x62 ++ Bits.ofNat 16 0xd000 ++ Bits.ofNat 32 0xed000000 ++ Bits.ofNat 104 7 := by
   refine ⟨by decide +kernel, by decide +kernel⟩
+
+/-- SCTP, the variable part: a whole RFC 9260 packet (common header, any chunks of any types, each padded to a
+    multiple of 4 bytes) parses to the common header fields followed by every chunk's header, value and padding
+    fields in wire order; the whole packet is header -/
+theorem C08_sctp_packet (sport dport vtag cksum : Nat) (cs : List Spec.SctpChunk) (hw : ∀ c ∈ cs, c.Wf) (fuel : Nat)
+    (hf : cs.length ≤ fuel) (hpf : ∀ c ∈ cs, paramCount c.value ≤ fuel) :
+    let b : ABuf := ⟨Spec.rowsBits (commonRows sport dport vtag cksum) ++ chunksWire cs, .left⟩
+    ∃ h, sctpParse fuel b = .ok h ∧ h.length = b.length ∧
+      pairs h.fields = leftPairs (Spec.rowsFields (commonRows sport dport vtag cksum) ++ chunksFields cs) :=
+  sctpParse_encoded sport dport vtag cksum cs hw fuel hf hpf
+
+/-- one chunk of any type, followed by anything -/
+theorem C08_sctp_chunk (c : Spec.SctpChunk) (hw : c.Wf) (rest : Bits) (fuel : Nat) (hf : paramCount c.value ≤ fuel) :
+    ∃ fs, sctpChunk fuel ⟨c.wire ++ rest, .left⟩ = .ok (fs, c.wire.length) ∧ pairs fs = leftPairs c.fields :=
+  sctpChunk_encoded c hw rest fuel hf
+
+/-- a parameter list (type, length, value, padding to 4 bytes) -/
+theorem C08_sctp_parameters (ps : List Spec.SctpParam) (hw : ∀ p ∈ ps, p.Wf) (fuel : Nat) (hf : ps.length ≤ fuel) :
+    ∃ fs, sctpParameters fuel ⟨Spec.paramsWire ps, .left⟩ = .ok fs ∧ pairs fs = leftPairs (Spec.paramsFields ps) :=
+  sctpParameters_encoded ps hw fuel hf
+
+/-- the spec is self-consistent: the RFC fields of a chunk value spell exactly its encoding -/
+theorem C08_sctp_value_tiles (v : Spec.ChunkValue) : v.fields.flatMap (·.2) = v.wire := value_tile v
+
+/-- non-vacuity: DATA with a 1-byte payload (3 bytes of chunk padding), a SACK with one gap block and one duplicate,
+    an INIT ACK with a 5-byte parameter (3 bytes of parameter padding), and an unknown chunk type -/
+example :
+    let cs : List Spec.SctpChunk := [⟨0, 3, .data 1 2 3 4 (Bits.ofNat 8 0x41)⟩, ⟨3, 0, .sack 7 8 [(1, 2)] [9]⟩,
+      ⟨2, 0, .init true 1 2 3 4 5 [⟨7, Bits.ofNat 40 0x0102030405⟩]⟩, ⟨200, 1, .other (Bits.ofNat 32 5)⟩]
+    (∀ c ∈ cs, c.Wf) ∧ (chunksWire cs).length = 8 * (20 + 24 + 32 + 8) := by
+  refine ⟨?_, by decide +kernel⟩
+  intro c hc
+  simp only [List.mem_cons, List.not_mem_nil, or_false] at hc
+  rcases hc with h | h | h | h <;> subst h <;>
+    refine ⟨by decide, by simp [Spec.ChunkValue.fitsType], ?_, by decide +kernel, by decide +kernel⟩
+  · simp [Spec.ChunkValue.Wf]
+  · simp [Spec.ChunkValue.Wf]
+  · intro p hp
+    simp only [List.mem_cons, List.not_mem_nil, or_false] at hp
+    subst hp
+    exact ⟨by decide +kernel, by decide +kernel⟩
+  · simp [Spec.ChunkValue.Wf]
 
 end Schc
